@@ -664,7 +664,8 @@ Section Proofs.
         lo base (firstn (w_applied w) L) ++
         old_prefix (horizon (expdur (w_fsm w)) t) (hi base (firstn (w_applied w) L)) /\
       ircstore f' = ents_store (hi base' (firstn (w_applied w) L)) /\
-      unmarshal (sn_state sn) = Some (rs init (lo base' (firstn (w_applied w) L)), base').
+      unmarshal (sn_state sn) = Some (rs init (lo base' (firstn (w_applied w) L)), base') /\
+      (exists xl, In xl (firstn (w_applied w) L) /\ sn_last sn = e_idx xl).
   Proof.
     intros L [[irc out m d s] n ps] base t f' sn HL HI Hsnap.
     pose proof HI as HI0.
@@ -718,9 +719,10 @@ Section Proofs.
         * unfold pers_ok, persist. cbn [p_applied p_state p_entries sn_state sn_first sn_last ircstore].
           split; [exact Happ|]. exists lastk. split; [exact Hst|]. split; [|exact Hpost].
           rewrite Hhi'. reflexivity.
-        * split; [exact Hhi'|]. split; [exact Hlo'|]. split.
+        * split; [exact Hhi'|]. split; [exact Hlo'|]. split; [|split].
           -- cbn [ircstore]. rewrite Hhi'. reflexivity.
           -- cbn [sn_state]. rewrite Hst. rewrite (state_upto_pre L n lastk Hs Hpost). reflexivity.
+          -- exists xl. split; [apply Hin_hl; exact Hxl|]. cbn [sn_last]. rewrite Hlastk. exact Hkl.
     - (* e1 is the first entry newer than the horizon *)
       set (key := e_idx e1 - 1) in *.
       assert (He1 : In e1 (h0 :: hr)).
@@ -753,9 +755,11 @@ Section Proofs.
              rewrite Forall_forall in Hf. specialize (Hf x Hx). lia.
           -- assert (In x (h0 :: hr)) by (rewrite Hon; apply in_or_app; right; exact Hx).
              specialize (Hlast x H). lia.
-        * split; [exact Hhi'|]. split; [exact Hlo'|]. split.
+        * split; [exact Hhi'|]. split; [exact Hlo'|]. split; [|split].
           -- cbn [ircstore]. rewrite Hhi'. reflexivity.
           -- cbn [sn_state]. rewrite Hst. rewrite (state_upto_pre L n key Hs Hpost). reflexivity.
+          -- destruct (last_index_ents_in (h0 :: hr)) as (xl & Hxl & Hkl); [discriminate|].
+             exists xl. split; [apply Hin_hl; exact Hxl|]. cbn [sn_last]. rewrite Hlastk. exact Hkl.
   Qed.
   (* ---- Restore establishes the invariant ------------------------------------------------ *)
   Lemma restore_inv : forall L (f : Fsm) p ps, log_ok L -> pers_ok L p ->
@@ -811,16 +815,61 @@ Section Proofs.
     - intros p [].
   Qed.
 
+  (* raft keeps applying between Snapshot() and Persist(): the invariant (same cut) is kept, the applied prefix grows *)
+  Lemma apply_n_inv : forall k L w base, log_ok L -> Inv L w base ->
+    Inv L (apply_n S O B apply exp_of L k w) base /\
+    w_persisted (apply_n S O B apply exp_of L k w) = w_persisted w /\
+    exists extra, firstn (w_applied (apply_n S O B apply exp_of L k w)) L = firstn (w_applied w) L ++ extra /\
+                  (forall e, In e extra -> In e (skipn (w_applied w) L)).
+  Proof.
+    induction k as [|k IH]; intros L w base HL HI.
+    - cbn [apply_n]. split; [exact HI|]. split; [reflexivity|]. exists []. rewrite app_nil_r. split; [reflexivity|intros e []].
+    - cbn [apply_n]. destruct (nth_error L (w_applied w)) as [e|] eqn:Hn.
+      + pose proof (apply_inv L w base e HL HI Hn) as HI1.
+        destruct (IH L _ base HL HI1) as (HI2 & Hps & extra & Hfn & Hex).
+        cbn [w_applied w_persisted] in *.
+        split; [exact HI2|]. split; [exact Hps|].
+        exists (e :: extra). split.
+        * rewrite Hfn, (firstn_snoc _ L _ e Hn), <- app_assoc. reflexivity.
+        * intros x [<-|Hx]; [apply nth_error_skipn_in; exact Hn|]. apply skipn_S_subset. apply Hex. exact Hx.
+      + split; [exact HI|]. split; [reflexivity|]. exists []. rewrite app_nil_r. split; [reflexivity|intros e []].
+  Qed.
+
+  (* Persist of an earlier snapshot object after more entries were applied writes the same content: the state
+     message and the retained entries firstIndex..lastIndex as they were when Snapshot() ran *)
+  Lemma persist_late : forall L w base t f' sn k, log_ok L -> Inv L w base ->
+    snapf vr t (w_fsm w) = Some (f', sn) ->
+    persist S O B (w_fsm (apply_n S O B apply exp_of L k (mkWorld S O B f' (w_applied w) (w_persisted w)))) sn (w_applied w) =
+    persist S O B f' sn (w_applied w).
+  Proof.
+    intros L w base t f' sn k HL HI Hsn.
+    destruct (snapshot_inv L w base t f' sn HL HI Hsn) as (base' & HI' & _ & _ & _ & Hirc' & _ & (xl & Hxl & Hlast)).
+    destruct (apply_n_inv k L _ base' HL HI') as (HI2 & _ & extra & Hfn & Hex).
+    cbn [w_applied] in Hfn, Hex.
+    unfold persist. f_equal.
+    rewrite (inv_irc _ _ _ HI2), Hfn, Hirc'. unfold hi. rewrite cmds_app, filter_app, ents_store_app.
+    unfold range. rewrite filter_app.
+    rewrite (filter_none _ _ (ents_store (filter (gt_idx base') (cmds extra)))); [rewrite app_nil_r; reflexivity|].
+    intros [kx vx] Hin. unfold ents_store in Hin. apply in_map_iff in Hin. destruct Hin as (x & Hx & Hin).
+    injection Hx as <- <-. cbn [fst]. apply filter_In in Hin. destruct Hin as [Hin _].
+    unfold cmds in Hin. apply filter_In in Hin. destruct Hin as [Hin _].
+    destruct HL as [Hs _]. pose proof (pre_lt_post L (w_applied w) xl x Hs Hxl (Hex x Hin)). lia.
+  Qed.
+
   Lemma step_inv : forall L w base st, log_ok L -> Inv L w base -> step_ok S O B vr w st ->
     exists base', Inv L (stepf vr L w st) base'.
   Proof.
-    intros L w base st HL HI Hok. destruct st as [n|t ok| |]; cbn [do_step step_ok] in *.
+    intros L w base st HL HI Hok. destruct st as [n|t k ok| |]; cbn [do_step step_ok] in *.
     - subst n. destruct (nth_error L (w_applied w)) as [e|] eqn:Hn.
       + exists base. apply apply_inv; assumption.
       + exists base. exact HI.
     - destruct (snapf vr t (w_fsm w)) as [[f' sn]|] eqn:Hsn.
       + destruct (snapshot_inv L w base t f' sn HL HI Hsn) as (base' & HI' & Hp & _).
-        exists base'. destruct ok; [apply inv_add_pers; assumption|exact HI'].
+        destruct (apply_n_inv k L _ base' HL HI') as (HI2 & Hps & _).
+        rewrite (persist_late L w base t f' sn k HL HI Hsn).
+        destruct (apply_n S O B apply exp_of L k (mkWorld S O B f' (w_applied w) (w_persisted w))) as [f2 n2 ps2] eqn:Hw2.
+        cbn [w_fsm w_applied w_persisted] in *. subst ps2.
+        exists base'. destruct ok; [apply inv_add_pers; assumption|exact HI2].
       + exists base. exact HI.
     - destruct (w_persisted w) as [|p ps] eqn:Hps.
       + exists base. exact HI.
@@ -951,7 +1000,7 @@ Section Proofs.
   Proof.
     intros L sigma HL Hok w pre t f' sn Hsn hz. destruct (reach_inv L sigma HL Hok) as (base & HI).
     fold (reached L sigma) in HI. fold w in HI.
-    destruct (snapshot_inv L w base t f' sn HL HI Hsn) as (base' & HI' & _ & Hhi' & Hlo' & Hirc' & Hst).
+    destruct (snapshot_inv L w base t f' sn HL HI Hsn) as (base' & HI' & _ & Hhi' & Hlo' & Hirc' & Hst & _).
     assert (Hhz : horizon (expdur (w_fsm w)) t = hz).
     { unfold horizon, hz. rewrite (inv_exp _ _ _ HI), (inv_srv _ _ _ HI). reflexivity. }
     rewrite Hhz in *. fold pre in Hhi', Hlo', Hirc', Hst.
@@ -963,6 +1012,17 @@ Section Proofs.
     split; [rewrite Hst, Hlo'; reflexivity|].
     pose proof (inv_srv _ _ _ HI') as H1. pose proof (inv_srv _ _ _ HI) as H2.
     cbn [w_fsm w_applied] in H1. rewrite H1, H2. reflexivity.
+  Qed.
+  (* a snapshot persisted later (raft persists in another goroutine while it keeps applying) has the content it
+     would have had immediately: it is a function of the log prefix up to the index captured by Snapshot() *)
+  Theorem fsm_persist_late : forall L sigma, log_ok L -> valid L sigma ->
+    let w := reached L sigma in
+    forall t k f' sn, snapf vr t (w_fsm w) = Some (f', sn) ->
+    persist S O B (w_fsm (apply_n S O B apply exp_of L k (mkWorld S O B f' (w_applied w) (w_persisted w)))) sn (w_applied w) =
+    persist S O B f' sn (w_applied w).
+  Proof.
+    intros L sigma HL Hok w t k f' sn Hsn. destruct (reach_inv L sigma HL Hok) as (base & HI).
+    fold (reached L sigma) in HI. fold w in HI. apply (persist_late L w base t f' sn k HL HI Hsn).
   Qed.
 End Proofs.
 
@@ -1014,7 +1074,7 @@ Ltac solve_log_ok :=
 Definition d3_log : list entry := [cmd 1 1; cmd 2 2; cmd 3 3; cmd 4 4; cmd 5 (100 * minute)].
 Definition d3_t : Z := 100 * minute + 100000000000.
 Definition d3_sched : list step :=
-  [SApply 0; SApply 1; SApply 2; SApply 3; SSnapshot d3_t true; SApply 4; SSnapshot d3_t true; SRestart].
+  [SApply 0; SApply 1; SApply 2; SApply 3; SSnapshot d3_t 0 true; SApply 4; SSnapshot d3_t 0 true; SRestart].
 
 Lemma d3_log_ok : log_ok d3_log.
 Proof. solve_log_ok. Qed.
@@ -1042,9 +1102,9 @@ Qed.
 Definition mix_log : list entry :=
   [noop 1; cmd 2 2; cfg 3 3 (30 * 60000000000)%N; noop 4; cmd 5 5; cmd 6 (100 * minute); noop 7; cmd 8 (101 * minute)].
 Definition mix_sched : list step :=
-  [SApply 0; SApply 1; SApply 2; SApply 3; SApply 4; SApply 5; SSnapshot (100 * minute + 30 * minute) false;
-   SApply 6; SSnapshot (100 * minute + 30 * minute) true; SApply 7; SRestore; SApply 7;
-   SSnapshot (140 * minute) true; SRestart; SSnapshot (141 * minute) true].
+  [SApply 0; SApply 1; SApply 2; SApply 3; SApply 4; SApply 5; SSnapshot (100 * minute + 30 * minute) 0 false;
+   SApply 6; SSnapshot (100 * minute + 30 * minute) 0 true; SApply 7; SRestore; SApply 7;
+   SSnapshot (140 * minute) 0 true; SRestart; SSnapshot (141 * minute) 0 true].
 Example mix_ok : log_ok mix_log /\ d_valid repaired mix_log mix_sched /\
   server (w_fsm (d_run repaired mix_log mix_sched)) = d_replay mix_log /\
   map fst (lss (w_fsm (d_run repaired mix_log mix_sched))) = [8%N] /\
@@ -1059,7 +1119,7 @@ Qed.
 Definition d15_log : list entry :=
   [cfg 1 1 (30 * 60000000000)%N; cmd 2 2; cmd 3 3; cmd 4 4; cmd 5 (100 * minute); cmd 6 (101 * minute)].
 Definition d15_sched : list step :=
-  [SApply 0; SApply 1; SApply 2; SApply 3; SApply 4; SApply 5; SSnapshot (120 * minute) true; SRestart].
+  [SApply 0; SApply 1; SApply 2; SApply 3; SApply 4; SApply 5; SSnapshot (120 * minute) 0 true; SRestart].
 Definition d15_t : Z := 116 * minute.
 
 Theorem refuted_pinned_d15 : exists L sigma t e r f' sn, log_ok L /\ d_valid pinned L sigma /\
@@ -1080,7 +1140,7 @@ Qed.
 Definition d15b_log : list entry :=
   [cfg 1 1 (5 * 60000000000)%N; cmd 2 2; cmd 3 3; cmd 4 4; cfg 5 (100 * minute) (30 * 60000000000)%N; cmd 6 (101 * minute)].
 Definition d15b_sched : list step :=
-  [SApply 0; SApply 1; SApply 2; SApply 3; SApply 4; SApply 5; SSnapshot (120 * minute) true].
+  [SApply 0; SApply 1; SApply 2; SApply 3; SApply 4; SApply 5; SSnapshot (120 * minute) 0 true].
 Theorem refuted_pinned_d15b : exists L sigma, log_ok L /\ d_valid pinned L sigma /\
   let w := d_run pinned L sigma in
   eff_exp (expdur (w_fsm w)) <> eff_exp (d_exp_of (server (w_fsm w))).
@@ -1093,8 +1153,8 @@ Qed.
    has re-applied everything folds entries the live server has not seen — also on the repaired tree *)
 Definition d18_log : list entry := [cmd 1 1; cmd 2 2; cmd 3 3; cmd 4 4].
 Definition d18_sched : list step :=
-  [SApply 0; SApply 1; SApply 2; SApply 3; SRestart; SApply 0; SSnapshot (60 * minute) true;
-   SApply 1; SApply 2; SApply 3; SSnapshot (60 * minute) true; SRestart].
+  [SApply 0; SApply 1; SApply 2; SApply 3; SRestart; SApply 0; SSnapshot (60 * minute) 0 true;
+   SApply 1; SApply 2; SApply 3; SSnapshot (60 * minute) 0 true; SRestart].
 Theorem refuted_restart_without_snapshot : exists L sigma, log_ok L /\ d_valid_raft repaired L sigma /\
   server (w_fsm (d_run repaired L sigma)) <> d_replay (firstn (w_applied (d_run repaired L sigma)) L).
 Proof.
@@ -1107,3 +1167,17 @@ Qed.
 Example d18_repaired_all_ok : log_ok d18_log /\ d_valid repaired_all d18_log d18_sched /\
   server (w_fsm (d_run repaired_all d18_log d18_sched)) = d_replay d18_log.
 Proof. split; [solve_log_ok|]. split; [solve_valid|vm_compute; reflexivity]. Qed.
+
+(* Snapshot(), two more entries applied (a CreateSession and a NICK: not idempotent), then Persist, restart:
+   the snapshot is filed under the index captured by Snapshot(), raft replays the two entries once *)
+Definition late_log : list entry := [cmd 1 1; cmd 2 2; noop 3; cmd 4 (100 * minute); cmd 5 (101 * minute); cmd 6 (102 * minute)].
+Definition late_sched : list step :=
+  [SApply 0; SApply 1; SApply 2; SApply 3; SSnapshot (30 * minute) 2 true; SRestart; SApply 4; SApply 5].
+Example late_ok : log_ok late_log /\ d_valid repaired late_log late_sched /\
+  server (w_fsm (d_run repaired late_log late_sched)) = d_replay late_log /\
+  map p_applied (w_persisted (d_run repaired late_log late_sched)) = [4%nat] /\
+  map (fun p => map e_idx (p_entries p)) (w_persisted (d_run repaired late_log late_sched)) = [[4%N]].
+Proof.
+  split; [solve_log_ok|]. split; [solve_valid|].
+  split; [vm_compute; reflexivity|]. split; vm_compute; reflexivity.
+Qed.
